@@ -149,6 +149,8 @@ def obligations(cx):
         ya, yb, da, db = var('y_a'), var('y_b'), var('d_a'), var('d_b')
         lockstep.run_pair(cx, "default-permeances.%s" % mode, (fa, ba), (fb, bb), band(eq(yb, ya), eq(db, da)),
                           lambda ra, rb: band(eq(rb[0], ra[0]), eq(rb[1], ra[1])), ctr_s, C2.BASE + [C2.PREC > 0, Pa >= 0, Pb >= 0])
+    from . import c12
+    c12.units_obligations(cx)
     cx.assume_note("step 0 of an ideal process = standalone call: step-fluxes obligation at k=0 + default-permeances lemma (here) + basis lemma (C07)")
     cx.assume_note("calculate_partial_fluxes by contract at its call sites: equal argument leaves name the same result (pure function, C20)")
 
